@@ -54,7 +54,10 @@ var unspecN = func() map[string]*atomic.Int64 {
 	for _, k := range v6ref.UnspecifiedClasses() {
 		m[k] = new(atomic.Int64)
 	}
-	m["may-reject: "+v6ref.WhyNamePtrChain] = new(atomic.Int64)
+	for _, k := range v6ref.MayRejectClasses() {
+		m["may-reject: "+k] = new(atomic.Int64)
+		m["may-reject(library rejects): "+k] = new(atomic.Int64)
+	}
 	return m
 }()
 
@@ -137,10 +140,11 @@ func Check(c *fw.Ctx, scope string, order int64, in []byte) bool {
 		stability(c, scope, order, in, lm, lerr)
 		return false
 	case v6ref.MayReject:
-		noteUnspecified(c, "may-reject: "+why)
 		if lerr != nil {
+			noteUnspecified(c, "may-reject(library rejects): "+why)
 			return false
 		}
+		noteUnspecified(c, "may-reject: "+why)
 	default:
 		if lerr != nil {
 			rt, _, _ := v6ref.DecodeMessage(in)
@@ -700,8 +704,10 @@ func Run(c *fw.Ctx) {
 	sort.Strings(ul)
 	c.Extra("unadapted_library_types", ul)
 	c.Extra("unspecified_classes", v6ref.UnspecifiedClasses())
+	c.Extra("may_reject_classes", v6ref.MayRejectClasses())
 	c.Extra("reference_leniencies", v6ref.Leniencies())
 	c.Assume("reference decoder v6ref written from RFC 8415 and the per-option RFCs (stdlib only, no library import)",
 		"requested-option lists are compared modulo removal of repeated codes (C06 statement normalisation)",
-		"UNSPECIFIED inputs (classes listed under unspecified_classes) and MAY-REJECT inputs (compression pointer chains) are only checked for no-panic, determinism and, when accepted, repeatable encoding / equal tree")
+		"UNSPECIFIED inputs (classes listed under unspecified_classes): only no-panic, determinism and, when accepted, repeatable encoding are demanded",
+		"MAY-REJECT inputs (classes listed under may_reject_classes: well-framed, but an RFC sentence makes refusal defensible): the library may reject; when it accepts, its value tree must equal the reference tree (counted under unspecified_cases as may-reject / may-reject(library rejects))")
 }
